@@ -120,3 +120,153 @@ def gen_c14(rnd, n, thorough=False):
 
 
 GENS = {'C14': gen_c14}
+
+
+def image_py(m, xff, layout, slots=None, maxret=None):
+    """bytes of a whisper file: header + slots (slots[a] = list of (time, valuebits), zero filled)"""
+    b = enc_header_py(m, xff, layout, maxret=maxret)
+    for a, (s, n) in enumerate(layout):
+        sl = (slots or {}).get(a, [])
+        for j in range(n):
+            t, v = sl[j] if j < len(sl) else (0, 0)
+            b += be32(t) + be64(v)
+    return b
+
+
+def gen_c15(rnd, n, thorough=False):
+    """Hostile bytes: decoders on random / mutated / extreme inputs, and Open plus operations on
+    damaged files, each in a child process with an address-space limit and a timeout."""
+    cases = []
+    extreme_counts = [0, 1, 2 ** 31 - 1, 2 ** 31, 2 ** 32 - 1, 2 ** 32, 178956970, 178956971, 357913941, 357913942, 357913943,
+                      0x1555555555555555, 0x1555555555555556, 2 ** 63 - 1, 2 ** 63, 2 ** 64 - 1, 1 << 40]
+    for c in range(n):
+        lines = []
+        tags = {'ops': {}}
+        def add(op, line):
+            lines.append(line); tags['ops'][op] = tags['ops'].get(op, 0) + 1
+        kind = rnd.pick(['decoders', 'decoders', 'file_truncated', 'file_garbage_slots', 'file_garbage_slots', 'file_garbage_slots', 'file_huge_header', 'file_random', 'file_bitflip'])
+        if kind == 'decoders':
+            for _ in range(rnd.randint(3, 8)):
+                k2, _line, enc = gen_object(rnd)
+                r = rnd.random()
+                if r < 0.3:
+                    b = bytes(rnd.getrandbits(8) for _ in range(rnd.pick([0, 1, 7, 8, 11, 12, 15, 16, 17, 28, 40, 100])))
+                elif r < 0.6 and enc:
+                    b = bytearray(enc)
+                    for _f in range(rnd.randint(1, 3)):
+                        i = rnd.randrange(len(b)); b[i] ^= 1 << rnd.randrange(8)
+                    b = bytes(b)
+                elif r < 0.8:
+                    cnt = rnd.pick(extreme_counts)
+                    if k2 == 'points':
+                        b = be64(cnt) + bytes(rnd.getrandbits(8) for _ in range(rnd.pick([0, 11, 12, 24])))
+                    elif k2 == 'series':
+                        fr = rnd.pick([0, 1, 2 ** 32 - 1, 100])
+                        un = rnd.pick([0, 2 ** 32 - 1, fr, fr + 1, 2 ** 31])
+                        st = rnd.pick([0, 1, 2 ** 31 - 1, 2 ** 31, 2 ** 32 - 1, 8, 3])
+                        b = be32(fr) + be32(un) + be32(st) + bytes(rnd.getrandbits(8) for _ in range(rnd.pick([0, 8, 16])))
+                    elif k2 == 'header':
+                        b = be32(rnd.pick([1, 2, 6, 0, 7])) + be32(rnd.getrandbits(32)) + be32(rnd.pick(XFF_VALID + [0x7fc00000])) + be32(cnt & 0xffffffff) \
+                            + bytes(rnd.getrandbits(8) for _ in range(rnd.pick([0, 12, 24])))
+                    else:
+                        b = enc[:rnd.randint(0, len(enc))]
+                else:
+                    b = enc[:rnd.randint(0, max(len(enc) - 1, 0))]
+                add('hdec', 'hdec %s %s' % (k2, hx(b)))
+        else:
+            lname, layout = pick_layout(rnd, ['ring2', 'three', 'tens', 'single5', 'barely', 'four'], random_share=0.3, max_points=20)
+            k = len(layout)
+            m, xff = rnd.pick(METHODS), rnd.pick(XFF_VALID)
+            now = 1700000000 + rnd.randint(0, 10 ** 6)
+            slots = {}
+            for a, (s, nn) in enumerate(layout):
+                base = now - now % s
+                slots[a] = [(base - j * s, small_value(rnd)) if rnd.chance(0.6) else (0, 0) for j in range(nn)]
+            img = image_py(m, xff, layout, slots)
+            if kind == 'file_truncated':
+                cut = rnd.pick([0, 1, 6, 15, 16, 17, 16 + 12 * k - 1, 16 + 12 * k, 16 + 12 * k + 1, len(img) - 13, len(img) - 12, len(img) - 1,
+                                rnd.randrange(len(img))])
+                img = img[:max(cut, 0)]
+            elif kind == 'file_garbage_slots':
+                for a, (s, nn) in enumerate(layout):
+                    slots[a] = [(rnd.pick([now - rnd.randint(0, 3 * s * nn), now - rnd.randint(0, 3 * s * nn) + 1, rnd.getrandbits(32), 0, 2 ** 32 - 1]), value(rnd))
+                                for _j in range(nn)]
+                img = image_py(m, xff, layout, slots, maxret=rnd.pick([None, None, 0, 1, 2 ** 31 - 1, 2 ** 32 - 1]))
+            elif kind == 'file_huge_header':
+                lay = rnd.pick([[(1, 357913943)], [(1, 357913930), (2, 357913950)], [(1, 2 ** 31 - 1)], [(1, 100), (100, 21474836)],
+                                [(1, 357913942)], [(2, 357913943)], [(1, 4), (4, 357913942)]])
+                img = enc_header_py(m, xff, lay) + bytes(rnd.pick([0, 8, 12, 100]))
+            elif kind == 'file_random':
+                img = bytes(rnd.getrandbits(8) for _ in range(rnd.pick([0, 5, 16, 28, 40, 200])))
+            elif kind == 'file_bitflip':
+                b = bytearray(img)
+                for _f in range(rnd.randint(1, 4)):
+                    i = rnd.randrange(min(len(b), 16 + 12 * k + 24)); b[i] ^= 1 << rnd.randrange(8)
+                img = bytes(b)
+            add('rawfile', 'rawfile f %s' % hx(img))
+            add('hopen', 'hopen f')
+            for _ in range(rnd.randint(2, 5)):
+                a = rnd.pick([-1] + list(range(k)))
+                for fr, un in windows(rnd, layout, a, now, 1):
+                    add('hfetch', 'hfetch f %d %d %d %d' % (a, fr, un, now))
+            add('hraw', 'hraw f %d' % rnd.randrange(k))
+            S0, N0 = layout[0]
+            add('hupd', 'hupd f %d %d %016x %d' % (rnd.pick([-1, 0]), now - rnd.randint(0, S0 * N0 - 1), small_value(rnd), now))
+            pts = [(now - rnd.randint(0, S0 * N0 - 1), small_value(rnd)) for _j in range(rnd.randint(1, 5))]
+            add('hmany', 'hmany f %d %d %d %s' % (rnd.pick([-1, 0]), now, len(pts), ' '.join('%d %016x' % p for p in pts)))
+        tags['kind'] = kind
+        cases.append({'id': 'c15-%d' % c, 'lines': lines, 'tags': tags})
+    return cases
+
+
+def gen_c06(rnd, n, thorough=False):
+    """Interoperability: files written by whispertool or by the reference implementation, read by
+    both (and by the reference-reader model) from the same bytes."""
+    cases = []
+    for c in range(n):
+        lname, layout = pick_layout(rnd, ['ring2', 'ring2c', 'ratioN', 'barely', 'barely3', 'three', 'four', 'single5', 'tens'], random_share=0.4, max_points=25)
+        k = len(layout)
+        m, xff = rnd.pick(METHODS), rnd.pick([0x00000000, 0x3e800000, 0x3f000000, 0x3f800000, 0x3eaaaaab])
+        rets = retentions(layout)
+        now = clock_in_domain(rnd, layout)
+        writer = rnd.pick(['whispertool', 'whispertool', 'go-whisper'])
+        lines = []
+        nan_ok = m not in (4, 5)
+        if writer == 'whispertool':
+            lines.append("create f %s m %d x %08x" % (fmt_layout(layout), m, xff))
+            for _ in range(rnd.randint(0, 8)):
+                now = advance(rnd, now, layout)
+                if rnd.chance(0.4):
+                    lines.append("upd f -1 %d %016x %d" % (now - rnd.randint(0, rets[-1] - 1), value(rnd, nan_ok), now))
+                else:
+                    ident = rnd.pick([-1, -1] + list(range(k)))
+                    R = rets[-1] if ident < 0 else rets[ident]
+                    pts = [(now - rnd.randint(0, R - 1), value(rnd, nan_ok)) for _j in range(rnd.randint(1, 10))]
+                    if rnd.chance(0.3):       # future-dated points: stored by the batch API, one lap ahead of old slots
+                        pts += [(now + rnd.randint(1, 3 * layout[0][0]), value(rnd, nan_ok)) for _j in range(rnd.randint(1, 3))]
+                    lines.append("many f %d %d %d %s" % (ident, now, len(pts), " ".join("%d %016x" % tv for tv in pts)))
+            lines += ["sync f", "drop f"]
+        else:
+            lines.append("gwcreate f %s m %d x %08x" % (fmt_layout(layout), m, xff))
+            for _ in range(rnd.randint(0, 8)):
+                now = advance(rnd, now, layout)
+                if rnd.chance(0.4):
+                    lines.append("gwupd f %d %016x %d" % (now - rnd.randint(0, rets[-1] - 1), value(rnd, False), now))
+                else:
+                    pts = [(now - rnd.randint(0, rets[-1] - 1), value(rnd, False)) for _j in range(rnd.randint(1, 10))]
+                    lines.append("gwmany f %d %d %s" % (now, len(pts), " ".join("%d %016x" % tv for tv in pts)))
+            lines.append("gwclose f")
+        for _ in range(rnd.randint(3, 7)):
+            if rnd.chance(0.3):
+                now = advance(rnd, now, layout)
+            band = rnd.randrange(k)
+            lo = rets[band - 1] if band > 0 else 0
+            fr = now - rnd.randint(lo, rets[band])             # from inside this archive's band
+            un = rnd.pick([now, fr + rnd.randint(1, rets[band]), fr + layout[band][0], fr, now + 5])
+            rnow = now - rnd.randint(1, 3 * layout[0][0]) if rnd.chance(0.25) else now      # a reader whose clock lags the writer's
+            lines.append("clixread f %d %d %d" % (max(fr, 0), max(un, 0), rnow))
+        cases.append({'id': 'c06-%d' % c, 'lines': lines, 'tags': {'layout': lname, 'writer': writer, 'levels': k, 'method': m}})
+    return cases
+
+
+GENS.update({'C15': gen_c15, 'C06': gen_c06})
